@@ -13,6 +13,9 @@ A case is a JSON-able dict (also the format of corpus/c09_*.json):
                 coordinates (vermouth.selectors.selector_has_position) just like None/'absent'
   or a HISTORY: entry 'history', weight, ignore, steps [{ffvar, atoms, beads}, ...]: ONE DoAverageBead
   object applied to the molecules in turn (each with its own force field / center_weight variable)
+  or a SYSTEM: entry 'system', same fields + style: the molecules in one vermouth.System, ONE run_system
+  qexp    (optional) the coordinates are scaled by 2^s, results cross in units of 2^-qexp (driver op avgq)
+The mapping-definition stream (real do_mapping -> DoAverageBead, driver op pipe) lives in c09_map.py.
   beads   [{'graph': [keys in subgraph order] | None, 'weights': [[key,'n/d'],...] | None,
             'container': 'subgraph' | 'nx'}, ...]
 All numbers are exact rationals whose float image is exact (dyadic); the float computation of
@@ -29,7 +32,11 @@ chk.extra['rule'] = ('a fine-grained Molecule and a particle Molecule are built 
                      'networkx graph, mapping_weights dict in independently shuffled order, atoms shared between '
                      'particles, positions missing/None, keys missing from the weight dict, extraneous keys); the real '
                      'do_average_bead / DoAverageBead.run_molecule is run; a case is non-trivial if some particle has '
-                     '>= 2 positioned constituents with unequal weights; distinct = distinct protocol line')
+                     '>= 2 positioned constituents with unequal weights; distinct = distinct protocol line. Extension: '
+                     'mapping-definition stream (real do_mapping + DoAverageBead on the C01 toy generators, positions '
+                     'recomputed from Mapping.mapping; non-trivial = unequal declared weights, an atom re-weighted by a '
+                     'modification mapping, or shared atoms), systems (one run_system over molecules with and without '
+                     'center_weight; non-trivial = unequal weights and at least one with/without switch), boundary stream')
 chk.lean(['VermouthProps.C09', 'VermouthProps.C09_Pipeline', 'VermouthProps.C09_Boundary'], 'driver_c09')
 
 import numpy as np
@@ -670,7 +677,7 @@ def gen_boundary(rng):
 
 
 rng = chk.rng('boundary')
-for i in range(12000 if chk.thorough else 900):
+for i in range(8000 if chk.thorough else 900):
     c = gen_boundary(rng)
     cases.append(('boundary-%d' % i, c, None, None))
     if rng.random() < 0.25:
@@ -752,9 +759,9 @@ map_cases = []
 try:
     C01D = c09_map.load_c01_defs(chk)
     mrng = chk.rng('mapdef')
-    for i in range(int(os.environ.get('C09_NMAP', 2500 if chk.thorough else 170))):
+    for i in range(int(os.environ.get('C09_NMAP', 2000 if chk.thorough else 170))):
         map_cases.append(('mapdef-blocks-%d' % i, c09_map.run_case(C01D, mrng, 'blocks')))
-    for i in range(int(os.environ.get('C09_NMOD', 2500 if chk.thorough else 170))):
+    for i in range(int(os.environ.get('C09_NMOD', 2000 if chk.thorough else 170))):
         map_cases.append(('mapdef-mods-%d' % i, c09_map.run_case(C01D, mrng, 'mods')))
 except Exception as e:
     import traceback
@@ -912,7 +919,7 @@ def run_system_real(h):
 
 
 rng = chk.rng('system')
-for i in range(5000 if chk.thorough else 350):
+for i in range(3000 if chk.thorough else 350):
     cases.append(('system-%d' % i, gen_system(rng), None, None))
 
 lines, impls, raws, pre_errs = [], [], [], []
